@@ -1,6 +1,7 @@
-SPECIFICATION Spec
+INIT MCInit
+NEXT Next
 CONSTANTS
-  Calls <- MCCallsQ
+  Full = FALSE
   SC = 8
 INVARIANT Legal
 INVARIANT GreedyIsBestAllowed
